@@ -65,6 +65,9 @@ fn all_kinds() -> Vec<(&'static str, Value)> {
         ("struct-flatten-renamed", json!({"type": "object", "properties": {"maxRetries": {"type": "integer"}, "name": {"type": "string"}}, "required": ["maxRetries"], "additionalProperties": {"type": "string"}})),
         ("struct-flatten-renamed", json!({"type": "object", "properties": {"max-retries": {"type": "integer"}, "type": {"type": "string"}}, "additionalProperties": {"type": "integer"}})),
         ("struct-renamed", json!({"type": "object", "properties": {"maxRetries": {"type": "integer"}, "type": {"type": "string", "default": "plain"}, "1st": {"type": "boolean"}}, "required": ["maxRetries"]})),
+        // a struct that carries a default of its own *and* member defaults (served by shared helpers)
+        ("struct-with-member-defaults", json!({"type": "object", "properties": {"port": {"type": "integer", "format": "uint16", "default": 8080}, "on": {"type": "boolean", "default": true}, "retries": {"type": "integer", "default": -3}, "label": {"type": "string"}}})),
+        ("struct-with-member-defaults", json!({"type": "object", "properties": {"level": {"type": "integer", "minimum": 1, "default": 7}, "tags": {"type": "array", "items": {"type": "string"}, "default": ["x"]}}, "required": []})),
         ("struct-ref", r("AuxStruct")),
         ("enum-ref", r("AuxEnum")),
         ("newtype-ref", r("AuxShort")),
@@ -308,7 +311,9 @@ impl Property for C06 {
                 let mine = diags.iter().find(|x| {
                     x.file == "gen" && {
                         let it = enclosing_item(gen_rs, x.line);
-                        it.starts_with("pub mod defaults") || it.contains("::std::default::Default for")
+                        // inside the defaults module / a Default impl, or at an attribute or
+                        // expression that names a default function
+                        it.starts_with("pub mod defaults") || it.contains("::std::default::Default for") || x.snippet.contains("defaults::") || x.snippet.contains("serde(default")
                     }
                 });
                 match mine {
